@@ -405,13 +405,17 @@ pub struct Case {
     pub verify: bool,
     pub frames: Vec<Vec<u8>>,
     pub events: Vec<Ev>,
+    /// behaviour of the write half while reading (keep-alive replies): short accepts / Pending only, never errors,
+    /// so the model's answer (the whole reply is written) does not depend on it
+    pub wscript: Vec<WEv>,
 }
 
 /// run one read-side case: correspondence line + the three oracles (C05 / C07 / C09 share the run)
 pub fn read_case(ctx: &mut Ctx, prop: &str, case: &Case) -> Vec<String> {
     let (tbl_s, tbl) = class_table(case.compressed, &case.frames);
-    let r = run_reads(case.fl, case.compressed, case.verify, case.events.clone(), vec![]);
-    let op = format!("framed.read {} {} {} {} {}", case.fl.tok(), mode_tok(case.compressed), if case.verify { "v1" } else { "v0" }, tbl_s, script_text(&r.log));
+    let r = run_reads(case.fl, case.compressed, case.verify, case.events.clone(), case.wscript.clone());
+    let mut op = format!("framed.read {} {} {} {} {}", case.fl.tok(), mode_tok(case.compressed), if case.verify { "v1" } else { "v0" }, tbl_s, script_text(&r.log));
+    if !case.wscript.is_empty() { op.push_str(&format!(" ws={}", wscript_text(&case.wscript))); }
     let res = if r.trace.is_empty() { "-".to_string() } else { r.trace.join(";") };
     ctx.case(&op, &res);
     // ---- oracle: the property's observable statement on the real connection
@@ -421,8 +425,9 @@ pub fn read_case(ctx: &mut Ctx, prop: &str, case: &Case) -> Vec<String> {
     if valid && stream == delivered && matches!(case.events.last(), Some(Ev::Eof)) {
         let exp = expected_trace(case.compressed, case.verify, &case.frames, &tbl);
         let got = fault_free(&r.trace);
-        let replay = format!("conn.case {} {} {} {} {}", case.fl.tok(), mode_tok(case.compressed), if case.verify { "v1" } else { "v0" },
+        let mut replay = format!("conn.case {} {} {} {} {}", case.fl.tok(), mode_tok(case.compressed), if case.verify { "v1" } else { "v0" },
             case.frames.iter().map(|f| hex(f)).collect::<Vec<_>>().join("+"), script_text(&case.events));
+        if !case.wscript.is_empty() { replay.push_str(&format!(" ws={}", wscript_text(&case.wscript))); }
         if got != exp && !exp.contains(&"abort".to_string()) {
             // attribute the difference
             let strip = |v: &[String]| v.iter().filter(|t| !t.starts_with("w=")).cloned().collect::<Vec<_>>();
@@ -434,7 +439,7 @@ pub fn read_case(ctx: &mut Ctx, prop: &str, case: &Case) -> Vec<String> {
                     ctx.violation(&format!("c05/reassembly/{}", case.fl.tok()), "read results are not one result per frame, in order, then disconnected", &replay, &exp.join(";"), &got.join(";"));
                 }
             } else {
-                ctx.violation(&format!("c07/pong/{}", case.fl.tok()), "keep-alive replies are not exactly one TINY_NONE per keep-alive, written before its delivery", &replay, &exp.join(";"), &got.join(";"));
+                ctx.violation(&format!("{}/pong/{}", if prop == "C06" { "c06" } else { "c07" }, case.fl.tok()), "keep-alive replies are not exactly one complete TINY_NONE per keep-alive, written before its delivery", &replay, &exp.join(";"), &got.join(";"));
             }
         }
         let faults_in = r.log.iter().filter(|e| matches!(e, Ev::IoErr | Ev::Timeout)).count();
@@ -464,23 +469,27 @@ pub fn parse_wevents(s: &str) -> Vec<WEv> {
 pub fn replay_line(ctx: &mut Ctx, prop: &str, l: &str) -> bool {
     let w: Vec<&str> = l.split_whitespace().collect();
     match w.as_slice() {
-        ["conn.case", fl, m, v, frames, evs] => {
+        ["conn.case", fl, m, v, frames, evs] | ["conn.case", fl, m, v, frames, evs, _] => {
+            let ws = if w.len() == 7 { parse_wevents(w[6].trim_start_matches("ws=")) } else { vec![] };
             let case = Case {
                 fl: if *fl == "tokio" { Flavour::Tokio } else { Flavour::Blocking },
                 compressed: *m == "c",
                 verify: *v == "v1",
                 frames: if *frames == "-" { vec![] } else { frames.split('+').map(unhex).collect() },
                 events: parse_events(evs),
+                wscript: ws,
             };
             let _ = read_case(ctx, prop, &case);
             true
         },
-        ["framed.read", fl, m, v, tbl, evs] => {
+        ["framed.read", fl, m, v, tbl, evs] | ["framed.read", fl, m, v, tbl, evs, _] => {
             // a bare correspondence line: the frames are the keys of the class table
+            let ws = if w.len() == 7 { parse_wevents(w[6].trim_start_matches("ws=")) } else { vec![] };
             let frames: Vec<Vec<u8>> = if *tbl == "-" { vec![] } else { tbl.split(';').map(|kv| unhex(kv.split('=').next().unwrap())).collect() };
-            let r = run_reads(if *fl == "tokio" { Flavour::Tokio } else { Flavour::Blocking }, *m == "c", *v == "v1", parse_events(evs), vec![]);
+            let r = run_reads(if *fl == "tokio" { Flavour::Tokio } else { Flavour::Blocking }, *m == "c", *v == "v1", parse_events(evs), ws.clone());
             let (tbl_s, _) = class_table(*m == "c", &frames);
-            let op = format!("framed.read {} {} {} {} {}", fl, m, v, tbl_s, script_text(&r.log));
+            let mut op = format!("framed.read {} {} {} {} {}", fl, m, v, tbl_s, script_text(&r.log));
+            if !ws.is_empty() { op.push_str(&format!(" ws={}", wscript_text(&ws))); }
             ctx.case(&op, &if r.trace.is_empty() { "-".to_string() } else { r.trace.join(";") });
             true
         },
@@ -514,7 +523,7 @@ pub fn generate_reads(ctx: &mut Ctx, prop: &str) {
                 while mask < (1u64 << (n - 1)) {
                     let mut evs = partition_by_mask(&stream, mask);
                     evs.push(Ev::Eof);
-                    let _ = read_case(ctx, prop, &Case { fl, compressed, verify: false, frames: frames.clone(), events: evs });
+                    let _ = read_case(ctx, prop, &Case { fl, compressed, verify: false, frames: frames.clone(), events: evs, wscript: vec![] });
                     mask += step;
                 }
             }
@@ -531,7 +540,7 @@ pub fn generate_reads(ctx: &mut Ctx, prop: &str) {
                         let style = ctx.rng.next();
                         let mut evs = random_partition(&mut ctx.rng, &frames.concat(), style);
                         evs.push(Ev::Eof);
-                        let _ = read_case(ctx, prop, &Case { fl, compressed, verify: false, frames, events: evs });
+                        let _ = read_case(ctx, prop, &Case { fl, compressed, verify: false, frames, events: evs, wscript: vec![] });
                     }
                 }
                 for (_, f) in &pool.by_type {
@@ -542,7 +551,7 @@ pub fn generate_reads(ctx: &mut Ctx, prop: &str) {
                         let mut evs = random_partition(&mut ctx.rng, &frames.concat(), style);
                         evs.push(Ev::Eof);
                         let verify = ctx.rng.chance(1, 2);
-                        let _ = read_case(ctx, prop, &Case { fl, compressed, verify, frames, events: evs });
+                        let _ = read_case(ctx, prop, &Case { fl, compressed, verify, frames, events: evs, wscript: vec![] });
                     }
                 }
             }
@@ -559,14 +568,14 @@ pub fn generate_reads(ctx: &mut Ctx, prop: &str) {
                         let style = ctx.rng.next();
                         let mut evs = random_partition(&mut ctx.rng, &frames.concat(), style);
                         evs.push(Ev::Eof);
-                        let _ = read_case(ctx, prop, &Case { fl, compressed, verify, frames, events: evs });
+                        let _ = read_case(ctx, prop, &Case { fl, compressed, verify, frames, events: evs, wscript: vec![] });
                     }
                     // every other kind passes the gate
                     for (_, f) in &pool.by_type {
                         let frames = vec![f.clone(), ping.clone()];
                         let mut evs = random_partition(&mut ctx.rng, &frames.concat(), 1);
                         evs.push(Ev::Eof);
-                        let _ = read_case(ctx, prop, &Case { fl, compressed, verify, frames, events: evs });
+                        let _ = read_case(ctx, prop, &Case { fl, compressed, verify, frames, events: evs, wscript: vec![] });
                     }
                 }
             }
@@ -603,7 +612,12 @@ pub fn generate_reads(ctx: &mut Ctx, prop: &str) {
             evs = sprinkle_faults(&mut ctx.rng, evs, fl, density);
             evs.push(Ev::Eof);
             let verify = ctx.rng.chance(1, 2);
-            let _ = read_case(ctx, prop, &Case { fl, compressed, verify, frames, events: evs });
+            // every third session: the write half accepts only a few bytes per call (and, for tokio, is sometimes not
+            // ready) while the keep-alive replies are written from inside read
+            let wscript: Vec<WEv> = if ctx.rng.chance(1, 3) {
+                (0..frames.len() * 6 + 8).map(|_| if fl == Flavour::Tokio && ctx.rng.chance(1, 4) { WEv::Pending } else { WEv::Accept(1 + ctx.rng.below(3) as usize) }).collect()
+            } else { vec![] };
+            let _ = read_case(ctx, prop, &Case { fl, compressed, verify, frames, events: evs, wscript });
             if long { ctx.count(&format!("long sessions (> 6120 bytes): {}", stream.len() > 6120)); }
         }
         // 5. framing faults: impossible announced lengths mid-stream, truncated final frame
@@ -614,13 +628,13 @@ pub fn generate_reads(ctx: &mut Ctx, prop: &str) {
                     stream.extend_from_slice(&[bad_size, 3, 0, 0, 1, 2, 3, 4]);
                     let mut evs = random_partition(&mut ctx.rng, &stream, 2);
                     evs.push(Ev::Eof);
-                    let _ = read_case(ctx, prop, &Case { fl, compressed, verify: false, frames: vec![ka.clone(), vec![bad_size, 3, 0, 0, 1, 2, 3, 4]], events: evs });
+                    let _ = read_case(ctx, prop, &Case { fl, compressed, verify: false, frames: vec![ka.clone(), vec![bad_size, 3, 0, 0, 1, 2, 3, 4]], events: evs, wscript: vec![] });
                 }
                 let mut stream = ping.clone();
                 stream.extend_from_slice(&pool.ver[9][..11]);
                 let mut evs = random_partition(&mut ctx.rng, &stream, 2);
                 evs.push(Ev::Eof);
-                let _ = read_case(ctx, prop, &Case { fl, compressed, verify: false, frames: vec![ping.clone()], events: evs });
+                let _ = read_case(ctx, prop, &Case { fl, compressed, verify: false, frames: vec![ping.clone()], events: evs, wscript: vec![] });
             }
         }
     }
@@ -637,6 +651,24 @@ pub fn run(ctx: &mut Ctx, prop: &str) {
     }
     if prop == "C06" {
         crate::c06::generate(ctx);
+        // the replies a connection writes on its own (keep-alives, from inside read) are packets handed to the same
+        // write path: the same acceptance patterns apply to them
+        for fl in [Flavour::Blocking, Flavour::Tokio] {
+            for compressed in [true, false] {
+                let ka = vec![size_byte(compressed, 4), 3, 0, 0];
+                let other = vec![size_byte(compressed, 4), 3, 7, 3];
+                for k in 1..=4usize {
+                    for pend in [false, true] {
+                        if pend && fl == Flavour::Blocking { continue; }
+                        let frames = vec![ka.clone(), other.clone(), ka.clone(), ka.clone()];
+                        let mut evs = vec![Ev::Data(frames.concat())];
+                        evs.push(Ev::Eof);
+                        let wscript: Vec<WEv> = (0..40).map(|i| if pend && i % 2 == 0 { WEv::Pending } else { WEv::Accept(k) }).collect();
+                        let _ = read_case(ctx, prop, &Case { fl, compressed, verify: false, frames, events: evs, wscript });
+                    }
+                }
+            }
+        }
     } else {
         generate_reads(ctx, prop);
     }
